@@ -658,4 +658,25 @@ def lookup10 (first unitSize : Nat) (vals : List Nat) (g : Nat) : Option Nat :=
   else if unitSize = 1 ∨ unitSize = 2 ∨ unitSize = 4 then readAt vals ((g - first) * unitSize) unitSize
   else none
 
+/-! ## traversal of a computed-size record array (`read-fonts/src/traversal.rs`)
+
+`impl SomeArray for ComputedArrayOfRecords`: `get(idx)` returns `None` for `idx >= self.array.len()`
+and otherwise `self.array.get(idx).ok()`; the array printer (`DebugPrintArray`:
+`while let Some(item) = self.0.get(idx) { idx += 1; … }`) and `SomeArray::iter` (`ArrayIter::next`)
+walk until the first `None`. -/
+
+/-- `<ComputedArrayOfRecords as SomeArray>::get` -/
+def travGet (dataLen itemLen idx : Nat) : Option Nat :=
+  if idx ≥ compLen dataLen itemLen then none else compGet dataLen itemLen idx
+
+/-- one trip of the printer loop / one `ArrayIter::next`; the state is `idx` -/
+def travStep (dataLen itemLen idx : Nat) : Out Nat × Nat :=
+  match travGet dataLen itemLen idx with
+  | none => (.done, idx)
+  | some off => (.yield off, idx + 1)
+
+/-- the whole walk -/
+def travTrace (dataLen itemLen : Nat) : Option (List (Out Nat)) :=
+  run (travStep dataLen itemLen) (compLen dataLen itemLen + 1) 0
+
 end FontVerif.HandIter
